@@ -29,6 +29,7 @@ def fips_rules(chk, cfgname, m, mod):
         chk.fail_closed('R-round-is-fips', base, 'hazmat functions missing: %s' % sorted(set(NAMES) - set(fns)))
         return 0
     n = 0
+    undec = 0
     soft = 'soft' in mod
     try:
         if soft:
@@ -88,17 +89,15 @@ def fips_rules(chk, cfgname, m, mod):
                     ref += c02.mix_columns(x)
                 else:
                     ref += c02.mix_columns(x, c02.IMC)
-            n += 1
-            d = c02.describe_diff(code, ref)
-            if d:
-                chk.violation('R-round-is-fips', key, '%s::%s is not the FIPS-197 transformation %s (byte index / 16 = lane): %s' % (mod, name, {
+            if c02.decide(chk, 'R-round-is-fips', key, code, ref, '%s::%s is not the FIPS-197 transformation %s (byte index / 16 = lane)' % (mod, name, {
                     'cipher_round': 'MixColumns(ShiftRows(SubBytes(b))) ^ k', 'equiv_inv_cipher_round': 'InvMixColumns(InvShiftRows(InvSubBytes(b))) ^ k',
-                    'mix_columns': 'MixColumns', 'inv_mix_columns': 'InvMixColumns'}[name.replace('_par', '')], d))
+                    'mix_columns': 'MixColumns', 'inv_mix_columns': 'InvMixColumns'}[name.replace('_par', '')]),
+                    dict(fn='%s::%s' % (mod, name), blocks=len(xs) // 16, sbox='proved by truth table' if soft else 'instruction definition')):
+                n += 1
             else:
-                chk.ok('R-round-is-fips', key, dict(fn='%s::%s' % (mod, name), blocks=len(xs) // 16,
-                                                    sbox='proved by truth table' if soft else 'instruction definition'))
+                undec += 1
     finally:
         T.BITCANON = False
         engine._INTERPS.clear()
         bitform.ISA.clear()
-    return n
+    return None if undec else n
